@@ -76,6 +76,9 @@ pub struct Probes {
     pub steal_refused: u64,
     pub abuse_shared: u64,
     pub escapes: u64,
+    pub key_send_refused: u64,
+    pub keys_sent: u64,
+    pub foreign_keys_used: u64,
 }
 
 pub struct Runner<'a> {
@@ -86,6 +89,8 @@ pub struct Runner<'a> {
     pub probes: Mutex<Probes>,
     /// flattened leaves of every shared target
     pub flats: Vec<Vec<FlatLeaf>>,
+    /// keys sent from thread to thread (KeyOp::Send); empty unless `ThreadKey: Send`
+    pub mailbox: Mutex<Vec<Box<dyn std::any::Any + Send>>>,
 }
 
 struct KeyHolder {
@@ -450,6 +455,34 @@ impl<'r, 'a> St<'r, 'a> {
                 }
                 // performed by the caller of the scoped call once it has returned
                 BodyOp::EscapeData(_) => {}
+                BodyOp::UseForeignKey(i) => {
+                    if *i >= ctx.flat.len() {
+                        continue;
+                    }
+                    let leaf = match self.r.world.leaf(ctx.flat[*i].lid) {
+                        Some(l) => l,
+                        None => continue,
+                    };
+                    let b = match self.r.mailbox.lock().unwrap().pop() {
+                        Some(b) => b,
+                        None => continue,
+                    };
+                    let fk: ThreadKey = match b.downcast::<ThreadKey>() {
+                        Ok(k) => *k,
+                        Err(_) => continue,
+                    };
+                    self.probe(|p| p.foreign_keys_used += 1);
+                    // a second key on this thread: lock something the thread already holds
+                    match leaf {
+                        Leaf::M(m) => drop(m.lock(fk)),
+                        Leaf::R(r) => drop(r.write(fk)),
+                        Leaf::PM(p) => drop(p.lock(fk)),
+                        Leaf::PR(p) => drop(p.lock(fk)),
+                        Leaf::PPM(p) => drop(p.lock(fk)),
+                        Leaf::PPR(p) => drop(p.lock(fk)),
+                        Leaf::ZM(_) | Leaf::ZR(_) => drop(fk),
+                    }
+                }
             }
         }
     }
@@ -1224,6 +1257,23 @@ impl<'r, 'a> Th<'r, 'a> {
                         self.kh.leaked = true;
                     }
                 }
+                KeyOp::Send => {
+                    #[allow(unused_imports)]
+                    use crate::caps::CapNo as _;
+                    if let Some(k) = self.take_key() {
+                        match crate::caps::cap::<ThreadKey>().boxed_send(k) {
+                            Ok(b) => {
+                                // the key lives on in another thread: this thread cannot get a new one
+                                self.st.r.mailbox.lock().unwrap().push(b);
+                                self.st.probe(|p| p.keys_sent += 1);
+                            }
+                            Err(k) => {
+                                self.kh.key = Some(k);
+                                self.st.probe(|p| p.key_send_refused += 1);
+                            }
+                        }
+                    }
+                }
             },
         }
     }
@@ -1889,6 +1939,7 @@ pub fn run_scenario(scn: &Scenario) -> RunResult {
         model: Mutex::new(Model { poison: BTreeMap::new(), in_flight: vec![Vec::new(); nthreads], order: Default::default() }),
         probes: Mutex::new(Probes::default()),
         flats,
+        mailbox: Mutex::new(Vec::new()),
     };
     std::thread::scope(|sc| {
         for tid in 0..nthreads {
